@@ -49,6 +49,10 @@ MIXED = {
         "notify.consider_fetch queues a fetch only for a requested output not yet fetched; notify.is_last_output_of (60 VCs). ",
  "C06": "Proved by pyvc+z3: Listener._recv_one (malformed frames never escape, well-formed ones are acked once and returned), ReliableSender.send/ack/maybe_retry with the class invariant "
         "(every unacknowledged message stays registered with its address, retries bounded by the budget, ack removes exactly that id; 192 VCs incl. loop invariants for every number of in-flight messages). ",
+ "C07": "Proved by pyvc+z3: DataServer.store_payload (an arrival is announced at most once, last, only after allocate(key of the dataset, len(bytes), the SOURCE's decoding function) -> write of exactly "
+        "the payload bytes -> close; a redundant transfer is swallowed silently; every failure is reported, nothing raised) and DataServer.send_payload (a payload leaves only for a command addressed from "
+        "this host to another, carries dataset id / the decoding function stored with the bytes / the command's index, goes to the commanded address; an opened buffer is always closed) - 47 VCs. "
+        "recv_loop / maybe_clean (retries, purge races, thread pool) stay bounded. ",
  "C08": "Proved by pyvc+z3: shm Manager.__init__/add/purge/page_out(+callback)/page_in(+callback)/get/close_callback against contracts over the WHOLE dataset map with the ghost aggregate 'used' "
         "(sum of in-memory sizes <= capacity preserved by every operation, nothing but the named key changes; 348 VCs). Assumed: Manager.page_out_at_least (6 of its 29 VCs time out) and the victim lottery. ",
  "C09": "Proved by pyvc+z3: Manager.is_pageoutable/get/close_callback/purge/page_out callback - a dataset with a live reader is never chosen or unlinked, delayed purge happens at the last close (283 VCs). ",
